@@ -79,8 +79,18 @@ func (c *Cache[K, D]) CheckExpirations(now time.Time) {
 	c.Range(func(key K, value *Element[D]) bool {
 		if value.IsExpired(now) {
 			verifhook.Point("cache.CheckExpirations.expired")
-			c.Delete(key)
-			value.onExpire(value.Data())
+			removed := false
+			c.ReplaceWithFunc(key, func(oldValue *Element[D], oldLoaded bool) (*Element[D], bool) {
+				if oldLoaded && oldValue != value {
+					// the entry was replaced in the meantime, keep the new one
+					return oldValue, false
+				}
+				removed = oldLoaded
+				return nil, true
+			})
+			if removed {
+				value.onExpire(value.Data())
+			}
 		}
 		return true
 	})
